@@ -372,7 +372,8 @@ GuardsClose(st, e) ==
     {G("closed_once", {"C10", "C12"}, me.closed = 0, NONE),
      G("closed_not_early", {"C10"}, CloserCovers(st, i), NONE),
      G("reverse_creation_order", {"C11"},
-        \A j \in closedIds : ~(st.inst[j].owner = me.owner /\ st.inst[j].born < me.born /\ st.inst[j].inv # me.inv), NONE),
+        \A j \in closedIds : ~(st.inst[j].owner = me.owner /\ st.inst[j].born < me.born /\ st.inst[j].inv # me.inv
+                               /\ st.inst[j].inv # 0 /\ me.inv # 0), NONE),     \* inv = 0: instance values are not created by the container
      G("children_before_parents", {"C11"},
         me.owner # "prov" => \A j \in closedIds : st.inst[j].owner \notin Ancestors(st, me.owner), NONE),
      G("scopes_before_singletons", {"C11"},
@@ -380,6 +381,8 @@ GuardsClose(st, e) ==
 
 \* ---- returns ----------------------------------------------------------------------------
 Disposables(st, S) == {i \in OwnedBy(st, S) : st.inst[i].disp}
+\* what the property obliges the container to close: what it created itself (inv = 0 marks instance values)
+MustClose(st, S) == {i \in Disposables(st, S) : st.inst[i].inv # 0}
 AllClosed(st, ids) == \A i \in ids : st.inst[i].closed >= 1
 
 FailClassOK(c, err) ==
@@ -410,7 +413,7 @@ GuardsRetBuild(st, e) ==
      G("conflict_only_if_conflict", {"C07"}, "lifetimeConflict" \in err => Conflict(cfg), NONE),
      G("buildable_accepted", {"C08", "C06"}, (Buildable(cfg) /\ ~EagerFault(cfg)) => ok, NONE),
      G("eager_failure_reported", {"C15"}, FailureReported(st, st.cur, err), NONE),
-     G("failed_build_closes_all", {"C10"}, ~ok => AllClosed(st, {i \in InstIds(st) : st.inst[i].disp}), NONE),
+     G("failed_build_closes_all", {"C10"}, ~ok => AllClosed(st, {i \in InstIds(st) : st.inst[i].disp /\ st.inst[i].inv # 0}), NONE),
      G("ok_build_closes_nothing", {"C10"}, ok => st.cur.ncl = 0, NONE),
      G("no_pending_transients", {"C03"}, ok => st.fresh = {}, NONE),
      G("singletons_all_constructed", {"C01"},
@@ -502,7 +505,7 @@ GuardsRetClose(st, e) ==
     {G("close_reports_errors", {"C12"}, c.op # "cancel" => (("disposal" \in err) <=> (c.nclerr > 0)), NONE),
      G("close_no_other_error", {"C12"}, err \subseteq {"disposal"}, NONE),
      G("second_close_noop", {"C12"}, ~c.wasOpen => (err = {} /\ c.ncl = 0), NONE),
-     G("close_closes_all_owned", {"C10"}, AllClosed(st, Disposables(st, sub)), NONE)}
+     G("close_closes_all_owned", {"C10"}, AllClosed(st, MustClose(st, sub)), NONE)}
 
 GuardsRet(st, e) ==
     {G("no_panic", {"C15"}, ~e.panic, NONE)} \cup
@@ -513,6 +516,44 @@ GuardsRet(st, e) ==
      ELSE IF st.cur.op = "create" THEN GuardsRetCreate(st, e)
      ELSE IF st.cur.op \in {"close", "cancel", "closeprov"} THEN GuardsRetClose(st, e)
      ELSE {})
+
+\* ---- API calls with nil / zero / unregistered / mismatched arguments, and on closed containers (C15) ----------
+\* call |-> [must: classes that have to be among the error's classes, ok: the call succeeds, panics: panics by contract]
+AE(must) == [must |-> must, ok |-> FALSE, panics |-> FALSE]
+AOK == [must |-> {}, ok |-> TRUE, panics |-> FALSE]
+APANIC == [must |-> {}, ok |-> FALSE, panics |-> TRUE]
+AbuseTable ==
+    [add_nil |-> AE({"ctorNil"}), add_typed_nil_pointer |-> AE({"ctorNil"}), add_nil_func |-> AE({}),
+     add_name_and_group |-> AE({"validation"}), add_nil_option |-> AOK, add_duplicate |-> AE({"alreadyRegistered"}),
+     add_keyed |-> AOK, add_group |-> AOK, add_modules_nil |-> AOK, add_module_failing |-> AE({"module", "alreadyRegistered"}),
+     contains_nil |-> AOK, build_cancelled_context |-> AE({"build"}), build_nil_options |-> AOK, build |-> AOK,
+     get_nil_type |-> AE({"typeNil"}), getkeyed_nil_type |-> AE({"typeNil"}), getkeyed_nil_key |-> AE({"keyNil"}),
+     getgroup_nil_type |-> AE({"typeNil"}), getgroup_empty_name |-> AE({"groupEmpty"}),
+     get_unregistered |-> AE({"notfound"}), getkeyed_unregistered_key |-> AE({"notfound"}),
+     get_keyed_service_without_key |-> AE({"notfound"}), getgroup_unknown_group |-> AOK, get_ok |-> AOK,
+     resolve_nil_provider |-> AE({"providerNil"}), resolvekeyed_nil_provider |-> AE({"providerNil"}),
+     resolvegroup_nil_provider |-> AE({"providerNil"}), resolvekeyed_nil_key |-> AE({"keyNil"}),
+     resolvegroup_empty_name |-> AE({"groupEmpty"}), resolve_unregistered_interface |-> AE({"notfound"}),
+     resolve_ok |-> AOK, resolvegroup_ok |-> AOK, mustresolve_ok |-> AOK, mustresolve_unregistered |-> APANIC,
+     mustresolvekeyed_unregistered |-> APANIC, mustresolvegroup_empty_name |-> APANIC,
+     fromcontext_nil |-> AE({}), fromcontext_no_scope |-> AE({}), createscope_nil_context |-> AOK,
+     scope_get_nil_type |-> AE({"typeNil"}), scope_getkeyed_nil_key |-> AE({"keyNil"}), scope_getkeyed_ok |-> AOK,
+     scope_close |-> AOK, scope_close_again |-> AOK,
+     closed_scope_get |-> AE({"scopeDisposed"}), closed_scope_getkeyed |-> AE({"scopeDisposed"}),
+     closed_scope_getgroup |-> AE({"scopeDisposed"}), closed_scope_createscope |-> AE({"scopeDisposed"}),
+     closed_scope_resolve |-> AE({"scopeDisposed"}), provider_close |-> AOK, provider_close_again |-> AOK,
+     closed_provider_get |-> AE({"providerDisposed"}), closed_provider_getkeyed |-> AE({"providerDisposed"}),
+     closed_provider_getgroup |-> AE({"providerDisposed"}), closed_provider_createscope |-> AE({"providerDisposed"}),
+     closed_provider_mustresolve |-> APANIC]
+
+GuardsAbuse(e) ==
+    IF e.call \notin DOMAIN AbuseTable THEN {G("known_abuse_call", {"C15"}, FALSE, NONE)}
+    ELSE LET x == AbuseTable[e.call]
+             err == Range(e.err)
+         IN {G("panics_only_by_contract", {"C15"}, e.panic = x.panics, NONE),
+             G("failure_is_classifiable", {"C15"}, (~x.ok /\ ~x.panics) => (err # {} /\ x.must \subseteq err), NONE),
+             G("valid_call_succeeds", {"C15"}, x.ok => err = {}, NONE),
+             G("closed_means_closed", {"C13"}, (x.must \cap {"scopeDisposed", "providerDisposed"} # {}) => x.must \subseteq err, NONE)}
 
 \* ---- quiescent observation (goroutines, reachability after GC, context state) ---------------
 OpenScopesWithWatcher(st) == {s \in ScopeNames(st) : s # "root" /\ st.scopes[s].open}
@@ -528,6 +569,7 @@ GuardsObs(st, e) ==
 Guards(st, e) ==
     IF st.skip THEN {}
     ELSE IF e.ev = "obs" /\ ~st.taint THEN GuardsObs(st, e)
+    ELSE IF e.ev = "abuse" THEN GuardsAbuse(e)
     ELSE IF e.ev = "ret" THEN GuardsRet(st, e)
     ELSE IF st.taint THEN {}
     ELSE IF e.ev = "ctor" THEN GuardsCtor(st, e)
